@@ -885,6 +885,12 @@ def rule_smin(spec) -> int:
 
 
 def gen_bar(rng):
+    if rng.random() < 0.25:
+        # very short bars on a long scale: begin and end fall into the same cell or the same eighth of a cell
+        size = rng.choice([1000, 997, 640, 64])
+        a = rng.randrange(0, size)
+        b = min(size, a + rng.choice([0, 1, 1, 2, 3, 8]))
+        return {"k": "bar", "size": size, "begin": a, "end": b, "width": rng.choice([None, None, None, 1, 2, 3, 10])}
     if rng.random() < 0.45:
         size = rng.choice([1, 10, 100, 7.5, 0.3, 1e6])
         a, b = rng.random() * size, rng.random() * size
